@@ -12,6 +12,7 @@ CONSTANTS
   MaxOps = 0
   AllowRemove = FALSE
   Interval = 0
+  Interval2 = 0
   NC = 1
   MainRes = {"void"}
   MainVia = {"direct"}
